@@ -748,3 +748,77 @@ def do_check(prop: Prop, tier: str, seed: int, t0: float) -> int:
     print(f"{prop.id} tier={tier} seed={seed}: theorems {discharged}/{obligations}, cases {len(cases)} "
           f"(distinct non-trivial {nontrivial}), violations {n_viol}, {ev['wall_s']} s")
     return rc
+
+
+# --------------------------------------------------------------------------------------------
+# probes for state that leaks between calls or objects (used by the implementation ops)
+# --------------------------------------------------------------------------------------------
+def pack_stable(obj: Any, what: str = "pack()", packer: Optional[Callable[[], Any]] = None) -> bytes:
+    """`obj.pack()` as octets, with the repeatability clause checked on the real code: the octets of a
+    second call equal those of the first even after the caller has scribbled over the buffer the first
+    call returned (an encoder that hands out its internal cache would otherwise change its own result).
+    Raises SelfCheckFailure; exceptions of pack() itself propagate unchanged."""
+    fn = packer if packer is not None else obj.pack
+    first = fn()
+    octets = bytes(first)
+    if isinstance(first, bytearray):
+        # what ordinary packet assembly does with a returned buffer
+        first.extend(b"\xde\xad\xbe\xef")
+        if len(first) > 4:
+            first[0] ^= 0xFF
+            first[len(first) // 2] ^= 0xA5
+    second = bytes(fn())
+    if second != octets:
+        raise SelfCheckFailure(f"{what}: a second call returns {second.hex()[:80]} after the caller modified the buffer returned by "
+                               f"the first call ({octets.hex()[:80]}): the encoder's result is not a function of the object")
+    return octets
+
+
+class Isolation:
+    """Decoded objects must not share state: `check(kind, obj, view)` records `view(obj)` and verifies
+    that the object recorded at the previous call for the same kind still shows the view it showed then
+    (i.e. decoding this input did not change an object decoded earlier). Also keeps a few older objects."""
+
+    def __init__(self, keep: int = 3):
+        self.keep = keep
+        self.prev: Dict[str, List[Any]] = {}
+
+    def check(self, kind: str, obj: Any, view: Callable[[Any], Any]) -> Any:
+        now = view(obj)
+        for (old_obj, old_view) in self.prev.get(kind, []):
+            try:
+                again = view(old_obj)
+            except Exception as e:  # noqa
+                raise SelfCheckFailure(f"{kind}: an object decoded earlier can no longer be inspected after a later decode ({type(e).__name__})")
+            if again != old_view:
+                raise SelfCheckFailure(f"{kind}: an object decoded earlier changed when another input was decoded: "
+                                       f"{json.dumps(old_view, sort_keys=True, default=str)[:200]} became {json.dumps(again, sort_keys=True, default=str)[:200]}")
+        lst = self.prev.setdefault(kind, [])
+        lst.append((obj, now))
+        if len(lst) > self.keep:
+            lst.pop(0)
+        return now
+
+
+ISOLATION = Isolation()
+
+
+class Reuse:
+    """Realistic reuse of configuration objects: `get(key, make)` returns the same instance for the same
+    key for a while (managed-parameter / configuration objects are created once and passed to many
+    calls in real programs; a cache hidden inside them that is keyed too coarsely only shows then)."""
+
+    def __init__(self, cap: int = 64):
+        self.cap = cap
+        self.items: Dict[str, Any] = {}
+
+    def get(self, key: Any, make: Callable[[], Any]) -> Any:
+        k = json.dumps(key, sort_keys=True, default=str)
+        if k not in self.items:
+            if len(self.items) >= self.cap:
+                self.items.pop(next(iter(self.items)))
+            self.items[k] = make()
+        return self.items[k]
+
+
+REUSE = Reuse()
